@@ -270,6 +270,19 @@ fn exec_op(ctx: &mut Ctx, tok: &str) -> String {
                 Err(e) => bus_err(&e).into(),
             }
         }
+        "wn" => {
+            // wn:<addr>:<n>  n byte writes to one address (values 0,1,2,...): long write histories in one token
+            let (_, bus) = ctx.dmd.verif_parts();
+            let addr = a(1) as usize;
+            let mut res: String = "ok".into();
+            for i in 0..a(2) {
+                if let Err(e) = bus.write_byte(addr, i as u8) {
+                    res = bus_err(&e).into();
+                    break;
+                }
+            }
+            res
+        }
         "lx" => {
             // a host load that may run past the end of its device: Mem::load stores byte by byte and panics at the first
             // byte outside the vector; the case goes on with whatever state that leaves
